@@ -1,4 +1,5 @@
 import HotstuffModel.Proofs.BatchMaker
+import HotstuffModel.Proofs.MempoolSync
 /-!
 # C11 — Batching keeps every transaction once, in order; batches are content-addressed
 
@@ -233,6 +234,104 @@ example :
     encodeBatch [[], [1, 2]] =
       [0, 0, 0, 0, 2, 0, 0, 0, 0, 0, 0, 0, 0, 0, 0, 0, 0, 0, 0, 0, 2, 0, 0, 0, 0, 0, 0, 0, 1, 2] ∧
     decodeBatch (encodeBatch [[], [1, 2]]) = some [[], [1, 2]] := by
+  decide
+
+end HS.C11
+
+/-!
+## mempool peer side
+
+Model: `HS.MS` (`Model/MempoolSync.lean`): the receiver dispatch of `mempool.rs`, the `Processor`
+that serves the batches received from other mempools, the `Helper` and the `Synchronizer`, on one
+shared store.  `reach cfg es` is the state after the event list `es` from the initial state, `outs
+cfg es` everything emitted on the way.  `cfg.hash` stands for SHA-512/256 and is arbitrary; byte
+strings and digests are identifiers.  Every theorem is for EVERY finite event list (frames of the
+three kinds, consensus commands, timer expiries, waiter completions, writes to the shared store by
+other tasks, in any order).
+-/
+namespace HS.C11
+-- keep the names of `HS.MS` in front of same-named ones of the node model (`HS.Event`, `HS.step`, …)
+export HS.MS (Cfg Event Out State PEntry step run reach outs init lookup)
+open HS.MS
+
+/-- A batch frame received in any reachable state: it is ACKed, stored under the hash of exactly
+the received bytes, and that digest — one, and no other — is handed to consensus; nothing else
+changes; the bytes are readable under that key right away. -/
+theorem peer_frame_stored_under_hash_of_its_bytes (cfg : Cfg) (es : List Event) (b : Nat) :
+    step cfg (reach cfg es) (.batchFrame b) =
+      ({ reach cfg es with store := (cfg.hash b, b) :: (reach cfg es).store },
+       [.ack, .stored (cfg.hash b) b, .digestToConsensus (cfg.hash b)]) ∧
+    lookup (step cfg (reach cfg es) (.batchFrame b)).1.store (cfg.hash b) = some b := by
+  refine ⟨rfl, ?_⟩
+  simp [step, lookup]
+
+/-- Over a whole run: the digests handed to consensus are exactly the hashes of the received batch
+frames, in arrival order (none missing, none invented, none twice unless the frame came twice), and
+the store writes of the processor are exactly `(hash bytes, bytes)` for those frames, in order. -/
+theorem peer_frames_announced_in_arrival_order (cfg : Cfg) (es : List Event) :
+    announced (outs cfg es) = (frames es).map cfg.hash ∧
+    storedOuts (outs cfg es) = (frames es).map (fun b => (cfg.hash b, b)) :=
+  run_announced cfg init es
+
+/-- The store after any run: reading key `d` returns the value of the LAST write to `d` (by a
+received batch frame, under the hash of its bytes, or by another task of the node), and nothing if
+there was none.  Nothing else in the model touches the store. -/
+theorem peer_store_is_last_write (cfg : Cfg) (es : List Event) (d : Nat) :
+    lookup (reach cfg es).store d = lastWrite cfg d es :=
+  lookup_reach cfg es d
+
+/-- Every batch frame ever received stays readable under the hash of its bytes; the value read is
+exactly those bytes unless a different byte string with the same hash (a collision) arrived, or
+another task overwrote that key. -/
+theorem peer_frame_readable_afterwards (cfg : Cfg) (es : List Event) (b : Nat)
+    (h : Event.batchFrame b ∈ es) :
+    (lookup (reach cfg es).store (cfg.hash b)).isSome ∧
+    ((∀ b', Event.batchFrame b' ∈ es → cfg.hash b' = cfg.hash b → b' = b) →
+      (∀ v, Event.extWrite (cfg.hash b) v ∈ es → v = b) →
+      lookup (reach cfg es).store (cfg.hash b) = some b) := by
+  rw [lookup_reach]
+  have hs := lastWrite_isSome cfg (cfg.hash b) es (.batchFrame b) b h rfl
+  refine ⟨hs, ?_⟩
+  intro hinj hext
+  cases hl : lastWrite cfg (cfg.hash b) es with
+  | none => rw [hl] at hs; simp at hs
+  | some v =>
+    obtain ⟨e, he, hw⟩ := lastWrite_some cfg _ es v hl
+    cases e with
+    | batchFrame b' =>
+      simp only [writeOf, Option.some.injEq, Prod.mk.injEq] at hw
+      have := hinj b' he hw.1
+      rw [← hw.2, this]
+    | extWrite d' v' =>
+      simp only [writeOf, Option.some.injEq, Prod.mk.injEq] at hw
+      obtain ⟨h1, h2⟩ := hw
+      subst h1; subst h2
+      rw [hext _ he]
+    | _ => simp [writeOf] at hw
+
+/-- A frame that does not decode changes nothing — store, pending requests, round — and is ACKed
+like any other frame; the connection task goes on (the next event is processed normally: the model
+has no "dead" state). -/
+theorem peer_garbage_frame_only_acked (cfg : Cfg) (es : List Event) :
+    step cfg (reach cfg es) .garbage = (reach cfg es, [.ack]) := rfl
+
+/-- Every frame that arrives on the mempool port is ACKed exactly once, whatever it contains; no
+other event produces an ACK. -/
+theorem peer_every_frame_acked_once (cfg : Cfg) (es : List Event) :
+    acks (outs cfg es) = (es.filter isFrame).length :=
+  run_acks cfg init es
+
+/-- Non-vacuity: two batch frames (ids 7 and 8, the second one twice), a garbage frame in
+between, a write by another task; hash = +100. -/
+example :
+    let cfg : Cfg := { name := 1, members := [1, 2, 3, 4], gcDepth := 2, retryDelay := 5, retryNodes := 2,
+                       hash := fun b => b + 100 }
+    let es : List Event := [.batchFrame 7, .garbage, .batchFrame 8, .extWrite 55 9, .batchFrame 8]
+    outs cfg es = [.ack, .stored 107 7, .digestToConsensus 107, .ack,
+                   .ack, .stored 108 8, .digestToConsensus 108,
+                   .ack, .stored 108 8, .digestToConsensus 108] ∧
+    lookup (reach cfg es).store 107 = some 7 ∧ lookup (reach cfg es).store 55 = some 9 ∧
+    lookup (reach cfg es).store 109 = none ∧ acks (outs cfg es) = 4 := by
   decide
 
 end HS.C11
